@@ -47,7 +47,8 @@ class Gen:
             return d
         self.dims = [Dimension(1), Dimension(1), units.length, units.time, units.mass, units.velocity, units.force,
                      units.energy] + [rand_dim() for _ in range(4)]
-        self.syms = [Symbol(f"s{i}", r.choice(self.dims), positive=True) for i in range(10)]
+        # s0..s5 positive, s6..s9 real (take negative values too, so that a dropped 0 in Min/Max becomes visible)
+        self.syms = [Symbol(f"s{i}", r.choice(self.dims), **({"positive": True} if i < 6 else {"real": True})) for i in range(10)]
         self.funs = [Function(f"f{i}", [self.syms[0]], r.choice(self.dims)) for i in range(3)]
         self.si = dimension_to_si_unit
         self.Quantity = Quantity
@@ -82,9 +83,11 @@ class Gen:
             k = self.r.random()
             if k < 0.5:
                 out.append(a * self.r.choice([2, self.sp.Rational(1, 3), -1]) if self.r.random() < 0.5 else a * self.gen(0) / self.nz(self.gen(0)))
-            elif k < 0.72:
+            elif k < 0.70:
                 z = self.r.choice(self.zero_qs)
                 out.append(z if self.r.random() < 0.6 else z * self.r.choice(self.syms))
+            elif k < 0.80 and k >= 0.76:
+                out.append(self.r.choice([self.sp.Integer(0), self.sp.Float(0.0)]))  # literal zero: any dimension
             elif k < 0.76 and top:
                 out.append(self.r.choice([self.sp.oo, self.inf_qs[0], -self.sp.oo]))
             else:
@@ -117,7 +120,15 @@ class Gen:
         if k < 0.94:
             f = r.choice(self.funs)
             x = self.syms[0]
-            return sp.Derivative(f(x), (x, r.choice([1, 2])))
+            inner = f(x)
+            k2 = r.random()
+            if k2 < 0.25:    # derivative of a composite expression
+                inner = inner * r.choice(self.syms[1:])
+            elif k2 < 0.35:
+                inner = inner * r.choice(self.qs)
+            elif k2 < 0.45:
+                inner = inner + f(x) ** 2 / f(x)
+            return sp.Derivative(inner, (x, r.choice([1, 2])))
         return r.choice([sp.sin, sp.exp, sp.cos, sp.log])(self.gen(d - 1) / self.nz(self.gen(d - 1)))
 
 
@@ -216,7 +227,7 @@ def check_tree(e, g, rec, origin, r):
     atoms = [a for a in e.atoms(sympy.Symbol) if not isinstance(a, SymQuantity)]
     ok_val = None
     for _ in range(3):
-        env = {a: mpmath.mpf(r.randint(300, 3000)) / 1000 for a in atoms}
+        env = {a: mpmath.mpf(r.randint(300, 3000)) / 1000 * (1 if a.is_positive else r.choice([1, -1])) for a in atoms}
         evl = numeval.Evaluator(env, quantity="scale_factor")
         try:
             v_in = evl.ev(e)
